@@ -1030,6 +1030,7 @@ MODELS = {
     "C05": {"quick": [_CRASH, _FAULT], "thorough": [_CRASH_T, _FAULT_T]},
     "C13": {"quick": [_CRASH], "thorough": [_CRASH_T, _FAULT_T]},
     "C14": {"quick": [_CRASH], "thorough": [_CRASH_T]},
+    "C06": {"quick": [("MC_Conserve.tla", "MC_Conserve_conc.cfg", 1200)], "thorough": [("MC_Conserve.tla", "MC_Conserve_conc.cfg", 1200)]},
     "C07": {"quick": [_CRASH], "thorough": [_CRASH_T]},
     "C16": {"quick": [("Restore.tla", "Restore_repo.cfg", 300)], "thorough": [("Restore.tla", "Restore_repo.cfg", 300)]},
     "C09": {"quick": [("MC_Conserve.tla", "MC_Conserve_validate.cfg", 1800)], "thorough": [("MC_Conserve.tla", "MC_Conserve_validate.cfg", 1800), _CRASH]},
@@ -1124,6 +1125,7 @@ SPEC_MUTANTS = [
     ("MC_Interlock.tla", "Interlock_mutant_nocreatenew.cfg", "NoMixing"),
     ("MC_Conserve.tla", "MC_Conserve_mutant_combiner.cfg", "Inv_"),
     ("MC_Conserve.tla", "MC_Conserve_mutant_gcskip.cfg", "Inv_"),
+    ("MC_Conserve.tla", "MC_Conserve_mutant_conc_norecheck.cfg", "Inv_"),
     ("MC_Conserve.tla", "MC_Conserve_mutant_silenthunks.cfg", "Inv_ValidateAdequate"),
     ("Restore.tla", "Restore_mutant_modefirst.cfg", "Inv_MetadataExact"),
     ("Restore.tla", "Restore_mutant_chownfollows.cfg", "Inv_OutsideUntouched"),
